@@ -118,6 +118,93 @@ CHECKS = {
                                 "a wall-clock bound alone never yields a violation: only a goroutine parked in the same blocked state in two probes does; otherwise the run is inconclusive (exit 2)",
                                 "the race detector only sees races on executed paths"],
     },
+    "C06": {
+        "test": "TestC06", "level": "fault_enumeration", "checks": (120, 6000), "timeout": (900, 7200),
+        "rule": "the C05 scenario space (stop cause x stop point x pacing x handler mode x fresh/used streamer), weighted towards master errors (codes 1..65535, with and "
+                "without #sqlstate, ASCII / UTF-8 / packet-header-looking messages), transport failures and handler / decode / table-lookup failures. Oracle (error-reporting "
+                "table): handler, mapper, column-mismatch, unsupported, invalid and undecodable causes that demonstrably reached the library => Stream != nil; if Stream == nil "
+                "and the caller had not cancelled: ERR => first Error() != nil and its text contains the master's message; close / reset / short / out-of-sequence / connect-phase "
+                "failure => first Error() != nil; master EOF unconstrained. Non-trivial = a master- or transport-side cause that fired after >= 1 delivered transaction; "
+                "distinct = distinct scenario hashes among those",
+        "assumptions": TRUST + ["a cause counts only when it demonstrably reached the library (the faulty packet was written out, the handler / mapper returned the injected error)",
+                                "when the caller cancelled before Stream returned either answer is allowed"],
+    },
+    "C09": {
+        "test": "TestC09", "level": "exploration", "checks": (2500, 120000), "timeout": (600, 3600),
+        "rule": "rapid-generated (config {checksum, v1/v2 rows, extra-data length, 4/6-byte ids} x table of 1..300 columns over the emitted AND documented-extra type strata with "
+                "their metadata domains x {write, update, delete} x presence bitmaps (full / key-only / random, >= 1 present) x NULL patterns x 0..8 rows), encoded by the independent "
+                "encoder and decoded directly with TableMap / Rows / CellBytes. Oracle: row count, presence bitmaps, per-row NULL bitmaps and image bytes equal the encoder's, and "
+                "walking each image with CellBytes consumes exactly len(image) with every cell length equal to the encoder's and every value equal to the model. "
+                "Non-trivial = > 8 columns or >= 2 rows or a partial image with NULLs; distinct = distinct case hashes among those",
+        "assumptions": TRUST + ["every used bitmap has >= 1 present column", "the library's BinlogFormat value is constructed from the logical configuration (the format-description decoder is C16's subject)"],
+    },
+    "C13": {
+        "test": "TestC13", "level": "exploration", "checks": (150, 6000), "timeout": (900, 7200),
+        "rule": "(a) CHAR/BINARY: EVERY declared length 0..1023 x actual {0,1,255,256,max}; VARCHAR declared 0..65535 (boundaries + stride 61; every length in the thorough tier) x "
+                "the same actual lengths; blob family length bytes 1..4 x {0,1,255,256,65535,65536,max}; random declared/actual/content for all eight string/binary type codes, "
+                "through CellBytes (verbatim bytes, exact consumption). (b) end to end: tables of 1..10 string columns streamed with column p NULL / empty / absent for EVERY "
+                "position p and state, in write / update / delete events: NULL <=> Data == nil && !IsEmpty, empty <=> Data != nil && len 0, absent <=> IsEmpty. Every case is "
+                "non-trivial; distinct = distinct case hashes",
+        "assumptions": TRUST + ["a single-column table cannot have its only column absent (a bitmap needs one present column)"],
+    },
+    "C14": {
+        "test": "TestC14", "level": "exploration", "checks": (2500, 150000), "timeout": (600, 5400), "fuzz": [("FuzzC14", "90s")],
+        "rule": "rapid-generated JSON documents (depth <= 6, fan-out <= 40, <= 150 nodes: objects with unique keys in MySQL's key order, arrays, literals, signed / unsigned "
+                "integers at every width boundary, doubles, quote-free strings 0..70000 bytes incl. UTF-8, opaque DATE / TIME (both signs) / DATETIME / DECIMAL) serialised by an "
+                "independent json_binary writer (small format, large format when >= 64 KiB by padding or by a forced format bit, small containers inside large ones, inlined and "
+                "out-of-line values) and decoded through CellBytes(TypeJSON); the rendered text is parsed with the grammar the repository's TestJSON documents and compared with "
+                "the document (keys, order, nesting, integers by value, doubles by bits, temporals and decimals by value). Non-trivial = depth >= 2 or large format or an opaque "
+                "scalar; distinct = distinct case hashes among those. Thorough adds native coverage-guided fuzzing of the same property (rapid.MakeFuzz)",
+        "assumptions": TRUST + ["keys and strings contain no quote characters (the renderer does not escape; stated in the property's quantifier)"],
+    },
+    "C15": {
+        "test": "TestC15", "level": "exploration", "checks": (600, 30000), "timeout": (600, 5400),
+        "rule": "(a) direct: table maps of 1..600 columns over both type strata, db/table names 1..255 bytes, arbitrary flags, every nullability pattern drawn, 4/6-byte ids, 0..3 "
+                "trailing optional-metadata TLVs -> TableMap()/TableID() must equal the schema (types, metadata per the documented byte order, CanBeNull). (b) end to end: an id "
+                "re-announced with other column types, an id re-bound to a different table (inside one transaction or across transactions with DDL in between), a mapper that "
+                "reports a wrong column count (Stream != nil, nothing of the mismatching table delivered), and generated multi-table histories with interleaved and re-announced "
+                "maps where every mapper call must name an announced table. Every (a)/(b-special) case is non-trivial, generated histories when they announce >= 2 maps; "
+                "distinct = distinct case hashes among those",
+        "assumptions": TRUST + ["when an id is re-announced for the same table, names and signedness are kept identical across the two definitions (the mapper is asked by name)"],
+    },
+    "C16": {
+        "test": "TestC16", "level": "exploration", "checks": (4000, 200000), "timeout": (600, 3600),
+        "rule": "rapid-generated control events {format description (server version 0..50 bytes, 27..255 arbitrary header sizes, algorithm byte 0/1/255), rotate (name 0..255 bytes, "
+                "position up to 2^63-1), query (db 0..255 bytes, SQL 0..64 KiB, every drawn subset in MySQL's emission order of status variables 0..20 with correctly shaped "
+                "payloads, charset present or not), XID, INTVAR (both ids), RAND} x arbitrary header fields x {MySQL 5.6, MariaDB event flavor}. Oracle: accessor results equal the "
+                "written fields, and the decoding after StripChecksum under CRC32 equals the decoding without checksum and under the 'undefined' algorithm (metamorphic). "
+                "Every case is non-trivial; distinct = distinct case hashes",
+        "assumptions": TRUST + ["the pre-5.0.4 Q_CATALOG status variable (code 2) is never emitted by a 5.6+ master and is not generated", "header length is 19 (what every 5.x/8.x master writes)"],
+    },
+    "C17": {
+        "test": "TestC17", "level": "fault_enumeration", "checks": (60, 3000), "timeout": (900, 7200), "fuzz": [("FuzzC17", "60s")],
+        "rule": "(a) byte strings of length 0..64 in structured classes (length field ==, <, > the buffer length; shorter than a header; all 0xFF; high length bytes set) and longer "
+                "ones up to 5 KiB; every well-formed event of a generated history truncated to and extended from EVERY length -> IsValid must equal (len >= 19 and "
+                "le32(b[9:13]) == len) for both event flavors and every header accessor / type predicate must agree with an independent read. (b) a packet failing the gate "
+                "(6 classes) injected at EVERY packet index of generated histories, both pacings: Stream != nil, no panic, exactly the transactions committed before the packet "
+                "are delivered (none partial), the next attempt asks for a position in the resume window and completes the history exactly once. Every case is non-trivial; "
+                "distinct = distinct case hashes. Thorough adds native go fuzzing of (a)",
+        "assumptions": TRUST + ["packets that pass the gate but carry a broken body are not this property's subject"],
+    },
+    "C18": {
+        "test": "TestC18", "level": "exploration", "checks": (1500, 80000), "timeout": (600, 3600),
+        "rule": "EXHAUSTIVE: one UUID and a window of 8 sequence numbers: all 256 subsets (built from an independently encoded SID block), all 65,536 ordered pairs for Contains / "
+                "Equal, and every (set, gtid) with the gtid in and around the window for ContainsGTID / AddGTID; then rapid state-machine cases: 1..4 UUIDs (some differing in "
+                "one byte), narrow or wide intervals up to 2^63-1, 1..12 AddGTID steps applied to any retained set. Oracle: a set-of-pairs model (sorted disjoint merged intervals "
+                "per UUID): membership, superset, equality, canonical text and SID block of every result, and every retained set re-verified after every step (receiver "
+                "unchanged). Every case is non-trivial; distinct = enumerated pairs / additions + distinct sequence hashes",
+        "assumptions": TRUST + ["sets are built through NewMysql56GTIDSetFromSIDBlock / AddGTID, never through the library's text parser (canonical inputs only)"],
+    },
+    "C19": {
+        "test": "TestC19", "level": "exploration", "checks": (4000, 200000), "timeout": (600, 3600),
+        "rule": "rapid-generated cases: MySQL 5.6 GTIDs (16-byte SIDs incl. all-zero / all-0xFF, sequence 1..2^63-1) and MariaDB GTIDs (domain / server 0..2^32-1, sequence up to "
+                "2^64-1) through String -> ParseGTID and EncodeGTID -> DecodeGTID; 5.6 sets of 0..8 UUIDs through String -> the registered set parser (verif hook) and SIDBlock -> "
+                "NewMysql56GTIDSetFromSIDBlock; MariaDB sets of 1..8 members through String -> the registered parser; GTID events (5.6 and 5.7 layouts, with and without CRC32), "
+                "previous-GTIDs events and MariaDB GTID events built by the independent encoder; a MariaDB state machine of 1..10 AddGTID steps on any retained set. Oracle: round "
+                "trips return equal values, event accessors return the written identifiers, and a per-domain model (one position per domain, containment by sequence, every "
+                "retained set unchanged after every step). Every case is non-trivial; distinct = distinct case hashes",
+        "assumptions": TRUST + ["the set parsers are reached through the add-only verif hook VerifParseGTIDSet (registry lookup)"],
+    },
 }
 
 NOT_APPLICABLE = {}
@@ -149,6 +236,39 @@ MANIFEST_TEXT = {
             "level_note": _BASE_NOTE},
     "C12": {"technique": "exhaustive sweep of the 2^24 raw 3-byte DATE/TIME values + property-based testing of the wider encodings under four process time zones",
             "level_text": "Exploration with exhaustive sub-spaces (all valid raw old DATE / TIME values); fractional encodings and zones are sampled.",
+            "level_note": _BASE_NOTE},
+    "C04": {"technique": "fault enumeration by property-based generation: (fault kind x fault point x pacing x up to 3 failed attempts) on one streamer, exactly-once-in-order oracle over accepted transactions plus a resume-window oracle on every dump request",
+            "level_text": "Fault enumeration: every listed way of ending an attempt is injected at generated points (master-side through the simulated master, replica-side through the handler, mapper and context) and the accepted transactions over all attempts are compared with the reference list.",
+            "level_note": _BASE_NOTE},
+    "C05": {"technique": "fault enumeration with harness-controlled schedules: stop cause x stop point x observed reader blocking state x handler mode, goroutine-state probes (blocked-state proof) and race-detector shards",
+            "level_text": "Fault enumeration under controlled timing: the master decides when each packet leaves, the handler can be gated, and the reader's blocking state is observed through runtime.Stack before the stop is fired; termination, cleanup and Error() liveness are decided by blocked-state proofs, not stopwatches; 4 of 16 shards run under the race detector.",
+            "level_note": _BASE_NOTE + " Scheduler interleavings inside the library are not enumerated; the two named blocking states are reached on purpose."},
+    "C06": {"technique": "fault enumeration over the same scenario space as C05 with an error-reporting decision table as oracle",
+            "level_text": "Fault enumeration: for each generated stop scenario the results of Stream and of the first Error() call are compared with the table cause -> allowed results.",
+            "level_note": _BASE_NOTE},
+    "C09": {"technique": "property-based testing: independent rows-event encoder vs TableMap/Rows/CellBytes, byte-for-byte image and exact-consumption oracle",
+            "level_text": "Exploration: thousands of generated rows events over wide tables, all type strata and bitmap shapes are decoded and compared byte for byte with the encoder's images.",
+            "level_note": _BASE_NOTE},
+    "C13": {"technique": "enumeration of declared lengths x boundary actual lengths + property-based testing; end-to-end enumeration of NULL/empty/absent in every column position",
+            "level_text": "Exploration with exhaustive sub-spaces (every CHAR length; every VARCHAR length in the thorough tier; every column position x state end to end).",
+            "level_note": _BASE_NOTE},
+    "C14": {"technique": "property-based testing with an independent binary-JSON writer and a parse-back oracle; coverage-guided fuzzing of the same property in the thorough tier",
+            "level_text": "Exploration: generated documents in small and large formats are rendered by the library and parsed back with the documented grammar; equality with the generated tree.",
+            "level_note": _BASE_NOTE},
+    "C15": {"technique": "property-based testing: direct table-map decoding vs generated schema; end-to-end attribution scenarios (re-announce, re-bind, count mismatch) vs reference model and mapper call log",
+            "level_text": "Exploration: schemas up to 600 columns decoded directly; attribution checked end to end on hand-shaped and generated interleavings.",
+            "level_note": _BASE_NOTE},
+    "C16": {"technique": "property-based testing with field-equality and a metamorphic checksum-on == checksum-off oracle",
+            "level_text": "Exploration: generated control events are decoded with and without CRC32 and under the undefined algorithm; all decodings must agree with each other and with the written fields.",
+            "level_note": _BASE_NOTE},
+    "C17": {"technique": "property-based testing of the exact validity predicate + fault enumeration (bad packet at every index of generated histories); native go fuzzing in the thorough tier",
+            "level_text": "Fault enumeration: the validity predicate is checked against its exact specification on structured and mutated byte strings, and a gate-failing packet is injected at every packet index of generated histories.",
+            "level_note": _BASE_NOTE},
+    "C18": {"technique": "exhaustive enumeration of a window of 8 (all subsets, pairs, additions) + rapid state-machine testing against a set-of-pairs model",
+            "level_text": "Exploration with an exhaustive sub-space (window of 8 under one UUID) and model-based stateful testing beyond it.",
+            "level_note": _BASE_NOTE},
+    "C19": {"technique": "property-based round-trip testing (text, flavor-tagged, SID block, events from an independent encoder) + stateful model of MariaDB sets",
+            "level_text": "Exploration: round trips over generated identifiers and sets, event decoding against the written identifiers, and a per-domain model with a receiver-unchanged invariant.",
             "level_note": _BASE_NOTE},
     "C20": {"technique": "property-based testing: synthetic hostile and end-to-end transactions, encoding/json parse-back structural oracle",
             "level_text": "Exploration: generated transactions are serialised and decoded generically; structure and NULL/empty/UTF-8 rules are compared with the source value.",
